@@ -10,23 +10,24 @@ Local Open Scope Z_scope.
    the compiler accepts, with or without the fields generated for enums:
    walking the index lists computed on the compile-time structure through the
    structure built from the message yields the value stored in the message
-   under those field NAMES (undefined if it is not there) - provided the path
-   does not touch a repeated message field of an absent message (the one
-   departure of the code, [lookup_correct_refuted]). *)
+   under those field NAMES; what is not in the message is undefined, an array
+   that is not in the message is empty. *)
 Theorem lookup_correct : forall (root : ty) (msg : option value) (enums : bool) (p : list step),
   compile_path root p [] <> None ->
-  no_template_root root msg p = true ->
   lookup root msg enums p = get_root root msg p.
 Proof. exact lookup_correct_lemma. Qed.
 Print Assumptions lookup_correct.
 
-(* the guard is needed: the code shows an array of length 1 for a repeated
-   message field of an absent message (the output has no such array) *)
-Theorem lookup_correct_guard_needed :
-  exists root msg p, compile_path root p [] <> None /\
-    lookup root (Some msg) false p = RObjArr 1 /\ get_root root (Some msg) p = RObjArr 0.
-Proof. exact lookup_correct_refuted. Qed.
-Print Assumptions lookup_correct_guard_needed.
+(* the shape of the repaired defect: a repeated message field of an absent
+   message is empty at scan time although the compile-time structure holds a
+   template item *)
+Theorem absent_message_array_empty :
+  let root := TMsg Proto2 [FD 1 1 false (TMsg Proto2 [FD 2 1 false (TArr (TMsg Proto2 [FD 3 1 false (TInt I64)] []))] [])] [] in
+  lookup root (Some (VMsg [])) false [SField 1%N; SField 2%N] = RObjArr 0 /\
+  lookup root (Some (VMsg [])) false [SField 1%N; SField 2%N; SIndex 0; SField 3%N] = Undef /\
+  run [OLookup [0%nat; 0%nat]] (compile_struct root) = RObjArr 1.
+Proof. exact absent_message_array_is_empty. Qed.
+Print Assumptions absent_message_array_empty.
 
 (* field indexes computed from the descriptor (with whatever generated enum /
    function / method fields) select the same protobuf field in the structure
@@ -41,9 +42,9 @@ Print Assumptions index_stable_under_enum_fields.
 Theorem index_selects_field : forall syn syn' fs extra present v n f,
   find_field n fs = Some f ->
   exists i, index_of n (ct_names fs extra) = Some i /\
-    forall enums,
-      nth_error (fields_of_tv (new_value enums syn (TMsg syn' fs extra) present v)) i =
-      Some (n, new_value enums syn' (fd_ty f) (is_some (body_of v)) (fieldval (body_of v) f)).
+    forall ct enums,
+      nth_error (fields_of_tv (new_value ct enums syn (TMsg syn' fs extra) present v)) i =
+      Some (n, new_value ct enums syn' (fd_ty f) (is_some (body_of v)) (fieldval (body_of v) f)).
 Proof. exact index_stable_struct. Qed.
 Print Assumptions index_selects_field.
 
@@ -65,19 +66,19 @@ Print Assumptions absent_message_is_undefined.
 (* arrays: length = number of repeated values, element i = i-th value;
    maps: with distinct keys, the entries in reflection (insertion) order *)
 Theorem len_and_iteration_order :
-  (forall enums syn e present l,
-     res_of (new_value enums syn (TArr e) present (Some (VArr l))) = RObjArr (length l) /\
+  (forall ct enums syn e present l,
+     res_of (new_value ct enums syn (TArr e) present (Some (VArr l))) = RObjArr (length l) /\
      forall i x, nth_error l i = Some x ->
-       run [OIndex (Z.of_nat i)] (new_value enums syn (TArr e) present (Some (VArr l))) =
-       res_of (new_value enums syn e true (Some x))) /\
-  (forall enums syn k vt present l,
+       run [OIndex (Z.of_nat i)] (new_value ct enums syn (TArr e) present (Some (VArr l))) =
+       res_of (new_value ct enums syn e true (Some x))) /\
+  (forall ct enums syn k vt present l,
      keys_distinct (map (fun kv => conv_key k (fst kv)) l) = true ->
-     new_value enums syn (TMap k vt) present (Some (VMap l)) =
-     RMap false (map (fun kv => (conv_key k (fst kv), new_value enums syn vt true (Some (snd kv)))) l) /\
-     res_of (new_value enums syn (TMap k vt) present (Some (VMap l))) = RObjMap (length l)).
+     new_value ct enums syn (TMap k vt) present (Some (VMap l)) =
+     RMap false (map (fun kv => (conv_key k (fst kv), new_value ct enums syn vt true (Some (snd kv)))) l) /\
+     res_of (new_value ct enums syn (TMap k vt) present (Some (VMap l))) = RObjMap (length l)).
 Proof.
   split.
-  - intros. destruct (array_len_and_order enums syn e present l) as [_ [H1 H2]]. split; assumption.
+  - intros. destruct (array_len_and_order ct enums syn e present l) as [_ [H1 H2]]. split; assumption.
   - intros. now apply map_len_and_order.
 Qed.
 Print Assumptions len_and_iteration_order.
@@ -86,8 +87,7 @@ Example c12_nonvacuous :
   let root := TMsg Proto2 [FD 1 7 false (TArr (TMsg Proto2 [FD 3 1 false (TInt U64)] []));
                            FD 2 3 false (TMap KStr TStr)] [9%N] in
   let msg := VMsg [(7%N, VArr [VMsg [(1%N, VInt (2 ^ 64 - 1))]]); (3%N, VMap [(VStr 5, VStr 6)])] in
-  no_template_root root (Some msg) [SField 1%N; SIndex 0; SField 3%N] = true /\
   lookup root (Some msg) true [SField 1%N; SIndex 0; SField 3%N] = RI (-1) /\
   lookup root (Some msg) false [SField 2%N; SKey (VStr 5)] = RS 6%N /\
   compile_path root [SField 1%N; SIndex 0; SField 3%N] [] = Some [OLookup [1%nat]; OIndex 0; OLookup [0%nat]].
-Proof. exact no_template_example. Qed.
+Proof. exact lookup_example. Qed.
